@@ -27,7 +27,11 @@ Inductive act :=
 | AReg         (* request.registerProducer(push producer, True) *)
 | AUnreg.      (* request.unregisterProducer() *)
 
-Record reqspec := mkQ { q_len : N; q_persist : bool; q_script : list act }.
+Record reqspec := mkQ {
+  q_len : N;               (* bytes of the whole request, head and body *)
+  q_persist : bool;        (* no "Connection: close" *)
+  q_body : bool;           (* the body goes through a transfer decoder (Content-Length > 0 or chunked) *)
+  q_script : list act }.
 
 Inductive op :=
 | Data (n : N)               (* the next n bytes of the request stream are delivered to dataReceived *)
@@ -47,6 +51,7 @@ Inductive ev :=
 | ENetPause | ENetResume             (* transport.pauseProducing() / resumeProducing(): reading paused / resumed *)
 | EProdPause (i : nat) | EProdResume (i : nat)    (* the request's push producer paused / resumed *)
 | EClose                             (* transport.loseConnection() *)
+| EAbort                             (* transport.abortConnection() (forceAbortClient) *)
 | ERaise.                            (* the call raised RuntimeError / ValueError *)
 
 (** per-request state (Request attributes) *)
@@ -89,7 +94,7 @@ Section WithStream.
   Variable sync : bool.               (* the transport reports a loss synchronously from loseConnection() *)
   Variable reqs : list reqspec.       (* the whole request stream *)
 
-  Definition spec_of (i : nat) : reqspec := nth i reqs (mkQ 0 true []).
+  Definition spec_of (i : nat) : reqspec := nth i reqs (mkQ 0 true false []).
 
   (** rawDataReceived while a request is being handled: buffer, maybe pause reading *)
   Definition eager_check (s : st) : list ev :=
@@ -290,8 +295,9 @@ Section WithStream.
                          (s_closing s) (s_lost s) in
           let (s2, e2) := run_script i (q_script q) s1 in
           if s_handling s2
-          then (* still being handled (or closing): the rest of the buffer goes to rawDataReceived *)
-               (s2, EProcess i :: e2 ++ (if (s_cons s2 <? s_recv s2)%N && negb (s_closing s2) then eager_check s2 else []))
+          then (* still being handled (or closing): the rest of the buffer goes to rawDataReceived — unless the request
+                  had a body: its decoder hands the rest straight to _dataBuffer (_finishRequestBody) *)
+               (s2, EProcess i :: e2 ++ (if (s_cons s2 <? s_recv s2)%N && negb (s_closing s2) && negb (q_body q) then eager_check s2 else []))
           else let (s3, e3) := drain rest' s2 in (s3, EProcess i :: e2 ++ e3)
     end.
 
@@ -300,7 +306,7 @@ Section WithStream.
   Definition step (s : st) (o : op) : st * list ev :=
     match o with
     | Data n =>
-        if s_lost s then (s, [])
+        if s_lost s || s_closing s then (s, [])      (* a transport stops reading once loseConnection() was called *)
         else
           let s1 := mkSt (s_rq s) (s_handling s) (s_inchan s) (s_recv s + n) (s_cons s) (s_waiting s) (s_cprod s)
                          (s_closing s) (s_lost s) in
@@ -338,6 +344,58 @@ Section WithStream.
     | [] => (s, [])
     | o :: r => let (s1, e) := step s o in
                 let (s2, es) := run s1 r in (s2, e :: es)
+    end.
+  (** ---------- the idle timeout (policies.TimeoutMixin as HTTPChannel uses it) ---------- *)
+  Variable tmo : option N.     (* HTTPChannel.timeOut (seconds); None = no idle timeout *)
+  Variable abt : option N.     (* HTTPChannel.abortTimeout *)
+
+  Record tst := mkT {
+    t_st : st;
+    t_now : N;                 (* the clock *)
+    t_dl : option N;           (* when the pending idle-timeout call fires *)
+    t_ab : option N }.         (* when the pending forceAbortClient call fires *)
+
+  Inductive top := Op (o : op) | Tick (dt : N).     (* an operation, or the clock advancing by dt *)
+
+  Definition due (d : option N) (now : N) : bool := match d with Some x => (x <=? now)%N | None => false end.
+  Definition after (now : N) (d : option N) : option N := match d with Some x => Some (now + x)%N | None => None end.
+
+  Definition tst0 : tst := mkT st0 0 (after 0 tmo) None.      (* connectionMade: setTimeout(timeOut) *)
+
+  Definition is_data (o : op) : bool := match o with Data _ => true | _ => false end.
+
+  Definition tstep (t : tst) (o : top) : tst * list ev :=
+    let s := t_st t in
+    match o with
+    | Tick dt =>
+        let now := (t_now t + dt)%N in
+        if s_lost s then (mkT s now None None, [])
+        else if due (t_dl t) now then
+          (* timeoutConnection: schedule forceAbortClient, then loseConnection() *)
+          let (s1, e1) := if sync then lose0 (mark_closing s) else (mark_closing s, []) in
+          (mkT s1 now None (if s_lost s1 then None else after now abt), EClose :: e1)
+        else if due (t_ab t) now then
+          (* forceAbortClient: transport.abortConnection() *)
+          let (s1, e1) := if sync then lose0 (mark_closing s) else (mark_closing s, []) in
+          (mkT s1 now None None, EAbort :: e1)
+        else (mkT s now (t_dl t) (t_ab t), [])
+    | Op o =>
+        let (s1, e1) := step s o in
+        (* the idle timeout is disabled while a request is handled (allContentReceived: setTimeout(None)), re-armed by
+           requestDone on a persistent connection, reset by every dataReceived while it is armed, and cancelled by
+           connectionLost *)
+        let dl := if s_handling s1 || s_lost s1 || s_closing s1 then None
+                  else if (is_data o && negb (s_lost s || s_closing s) && negb (s_handling s))
+                          || (s_handling s && negb (s_handling s1)) then after (t_now t) tmo
+                  else t_dl t in
+        (mkT s1 (t_now t) dl (if s_lost s1 then None else t_ab t), e1)
+    end.
+
+  Fixpoint trun (t : tst) (ops : list top) : tst * list (list ev) :=
+    match ops with
+    | [] => (t, [])
+    | o :: r => let (t1, e) := tstep t o in
+                let (t2, es) := trun t1 r in (t2, e :: es)
     end.
 End WithStream.
 
@@ -424,7 +482,7 @@ Definition mon_step (m : mon) (e : ev) : option mon :=
       end
   | ENetPause => Some (mkMon (m_rq m) (m_open m) (m_head m) (m_dead m) (m_nw m) true (m_gone m))
   | ENetResume => Some (mkMon (m_rq m) (m_open m) (m_head m) (m_dead m) (m_nw m) false (m_gone m))
-  | EProdPause _ | EProdResume _ | EClose | ERaise => Some m
+  | EProdPause _ | EProdResume _ | EClose | EAbort | ERaise => Some m
   end.
 
 Fixpoint mon_run (m : mon) (l : list ev) : option mon :=
